@@ -266,39 +266,35 @@ func checkC19(w *World, r *Report) {
 	// ids assigned to new records
 	ms := w.msgServerMethods()
 	for _, m := range []string{"CreateFixedPriceAuction", "CreateBatchAuction"} {
-		ok, why := false, "no Auction write"
-		for fn := range w.reachableFrom(ms[m]) {
-			fr := tm.Root(fn)
-			for _, b := range fn.Blocks {
-				for _, in := range b.Instrs {
-					if e := w.EffectOf(in); e != nil && e.Kind == EffStoreWrite && e.Coll == "Auction" && e.Method == "Set" {
-						id := recordField(tm.OperandAt(fr, in, in.(ssa.CallInstruction).Common().Args[3]), "Id", true)
-						ok = id.Op == "res" && id.Args[0].Op == "call" && strings.HasSuffix(id.Args[0].Name, "collections.Sequence.Next") && isField(id.Args[0].Args[0], "AuctionSeq")
-						why = "the new auction's id is " + id.String()
-					}
-				}
+		ok, why, n := true, "no Auction write", 0
+		for _, site := range tm.sitesWhere([]*ssa.Function{ms[m]}, func(fr *Frame, in ssa.Instruction) bool {
+			e := w.EffectOf(in)
+			return e != nil && e.Kind == EffStoreWrite && e.Coll == "Auction" && e.Method == "Set"
+		}) {
+			n++
+			id := recordField(tm.OperandAt(site.Fr, site.In, site.In.(ssa.CallInstruction).Common().Args[3]), "Id", true)
+			if !(id.Op == "res" && id.Args[0].Op == "call" && strings.HasSuffix(id.Args[0].Name, "collections.Sequence.Next") && isField(id.Args[0].Args[0], "AuctionSeq")) {
+				ok, why = false, "the new auction's id is "+id.String()
 			}
 		}
-		r.Check(ok, "ID-MONO", m+":id", w.pos(ms[m].Pos()), "a new auction's id is the value drawn from AuctionSeq.Next", why)
+		r.Check(ok && n > 0, "ID-MONO", m+":id", w.pos(ms[m].Pos()), "a new auction's id is the value drawn from AuctionSeq.Next", why)
 	}
 	{
-		ok, why := false, "no Bid write"
-		for fn := range w.reachableFrom(ms["PlaceBid"]) {
-			fr := tm.Root(fn)
-			for _, b := range fn.Blocks {
-				for _, in := range b.Instrs {
-					if e := w.EffectOf(in); e != nil && e.Kind == EffStoreWrite && e.Coll == "Bid" && e.Method == "Set" {
-						id := normField(tm.OperandAt(fr, in, in.(ssa.CallInstruction).Common().Args[3]), "Id", nil)
-						// the allocator's result: (0|stored)+1 keyed by the auction's id
-						ok = id.Any(func(t *Term) bool {
-							return t.Op == "binop" && t.Name == "+" && t.Args[1].Key() == "const<1>" && t.Args[0].Any(func(x *Term) bool { return x.Op == "call" && len(x.Args) > 0 && isField(x.Args[0], "BidSeq") })
-						})
-						why = "the new bid's id is " + id.String()
-					}
-				}
+		ok, why, n := true, "no Bid write", 0
+		for _, site := range tm.sitesWhere([]*ssa.Function{ms["PlaceBid"]}, func(fr *Frame, in ssa.Instruction) bool {
+			e := w.EffectOf(in)
+			return e != nil && e.Kind == EffStoreWrite && e.Coll == "Bid" && e.Method == "Set"
+		}) {
+			n++
+			id := normField(tm.OperandAt(site.Fr, site.In, site.In.(ssa.CallInstruction).Common().Args[3]), "Id", nil)
+			// the allocator's result: (0|stored)+1 keyed by the auction's id
+			if !id.Any(func(t *Term) bool {
+				return t.Op == "binop" && t.Name == "+" && t.Args[1].Key() == "const<1>" && t.Args[0].Any(func(x *Term) bool { return x.Op == "call" && len(x.Args) > 0 && isField(x.Args[0], "BidSeq") })
+			}) {
+				ok, why = false, "the new bid's id is "+id.String()
 			}
 		}
-		r.Check(ok, "ID-MONO", "PlaceBid:id", w.pos(ms["PlaceBid"].Pos()), "a new bid's id is the auction's bid counter + 1", why)
+		r.Check(ok && n > 0, "ID-MONO", "PlaceBid:id", w.pos(ms["PlaceBid"].Pos()), "a new bid's id is the auction's bid counter + 1", why)
 	}
 
 	// ---------------------------------------------------------------- ADDR-DERIVE
@@ -316,31 +312,26 @@ func checkC19(w *World, r *Report) {
 	r.Check(len(consts) == 3 && len(vals) == 3, "ADDR-DERIVE", "role-constants", typesPath, fmt.Sprintf("the three escrow role constants are pairwise distinct (%v)", consts),
 		"two escrow roles share a derivation constant: two escrows of one auction are the same account")
 	for _, m := range []string{"CreateFixedPriceAuction", "CreateBatchAuction"} {
-		for fn := range w.reachableFrom(ms[m]) {
-			fr := tm.Root(fn)
-			for _, b := range fn.Blocks {
-				for _, in := range b.Instrs {
-					e := w.EffectOf(in)
-					if e == nil || e.Kind != EffStoreWrite || e.Coll != "Auction" || e.Method != "Set" {
-						continue
-					}
-					val := tm.OperandAt(fr, in, in.(ssa.CallInstruction).Common().Args[3])
-					id := recordField(val, "Id", true)
-					var bad []string
-					for f, kind := range escrowOf {
-						at := recordField(val, f, true)
-						role := roleOf(at)
-						switch {
-						case role.Kind != kind:
-							bad = append(bad, fmt.Sprintf("%s is derived as %s", f, role))
-						case role.Auction != "id:"+shortKey(id):
-							bad = append(bad, fmt.Sprintf("%s is derived from %s, not from the record's own id", f, role.Auction))
-						}
-					}
-					sort.Strings(bad)
-					r.Check(len(bad) == 0, "ADDR-DERIVE", m+":stored-addresses", w.instrPos(in), "the escrow addresses stored in a new auction are derived from its own id with the matching role constant", strings.Join(bad, "; "))
+		for _, site := range tm.sitesWhere([]*ssa.Function{ms[m]}, func(fr *Frame, in ssa.Instruction) bool {
+			e := w.EffectOf(in)
+			return e != nil && e.Kind == EffStoreWrite && e.Coll == "Auction" && e.Method == "Set"
+		}) {
+			in := site.In
+			val := tm.OperandAt(site.Fr, in, in.(ssa.CallInstruction).Common().Args[3])
+			id := recordField(val, "Id", true)
+			var bad []string
+			for f, kind := range escrowOf {
+				at := recordField(val, f, true)
+				role := roleOf(at)
+				switch {
+				case role.Kind != kind:
+					bad = append(bad, fmt.Sprintf("%s is derived as %s", f, role))
+				case role.Auction != "id:"+shortKey(id):
+					bad = append(bad, fmt.Sprintf("%s is derived from %s, not from the record's own id", f, role.Auction))
 				}
 			}
+			sort.Strings(bad)
+			r.Check(len(bad) == 0, "ADDR-DERIVE", m+":stored-addresses", w.instrPos(in), "the escrow addresses stored in a new auction are derived from its own id with the matching role constant", strings.Join(bad, "; "))
 		}
 	}
 	rolesTM = tm
